@@ -80,6 +80,20 @@ def apply_edit(root, m):
         if p.returncode != 0:
             return f"{m['transform']} transformation failed: {p.stderr[-200:]}"
         return None
+    if "lines" in m:
+        rel, a, b, repl = m["lines"]
+        path = os.path.join(root, rel)
+        with open(path, encoding="utf-8") as f:
+            src = f.read().split("\n")
+        src[a - 1:b] = repl
+        text = "\n".join(src)
+        try:
+            compile(text, path, "exec")
+        except SyntaxError as e:
+            return f"edit does not compile: {e}"
+        with open(path, "w", encoding="utf-8") as f:
+            f.write(text)
+        return None
     if "patch" in m:
         p = subprocess.run(
             ["patch", "-p1", "-s", "--no-backup-if-mismatch", "-d", root, "-i", m["patch"]],
